@@ -13,9 +13,10 @@ MUTATIONS = [("no_sign_padding", "MpintOnly", 1, "MpintCanonical"), ("string_off
              ("little_endian_u32", "SeqVals", 1, "WireOK")]
 
 
-def cfg(vals, maxfields, maglen=1, intrange=1, zero_as_byte=False, mutation="none", invariants=(), spec="Spec", single="NoVals"):
+def cfg(vals, maxfields, maglen=1, intrange=1, zero_as_byte=False, mutation="none", invariants=(), spec="Spec", single="NoVals",
+        properties=()):
     return (cfg_text(spec=spec, constants={"MaxFields": maxfields, "MagLen": maglen, "IntRange": intrange,
-                                           "ZeroAsByte": zero_as_byte, "Mutation": mutation}, invariants=invariants)
+                                           "ZeroAsByte": zero_as_byte, "Mutation": mutation}, invariants=invariants, properties=properties)
             + "CONSTANTS\n  FieldVals <- %s\n  SingleVals <- %s\n" % (vals, single))
 
 
@@ -137,7 +138,7 @@ def run(c):
     maxf, maglen, irange = (2, 3, 1100) if c.quick else (4, 4, 70000)
     rnd = random.Random(c.seed)
     # ---- M: messages of several fields; single-field messages with rich values.  Both emit every message.
-    r = c.mc_holds("WireCodec", cfg("SeqVals", maxf, maglen, irange, invariants=INVS + ["Emit"], single="RichVals"),
+    r = c.mc_holds("WireCodec", cfg("SeqVals", maxf, maglen, irange, invariants=INVS + ["Emit"], single="RichVals", properties=["AddLegal", "GetLegal"]),
                    name="messages of up to %d fields + single fields with boundary-rich values" % maxf, workers=1, timeout=1500)
     cases = r.printed("CASE")
     nseq = sum(14 ** n for n in range(maxf + 1))
